@@ -126,8 +126,30 @@ def _replay(job):
         op = root / ("out_%d_%d.rtdc" % (os.getpid(), _replay.k))
         _replay.k += 1
         req = feats + [feats[0]]                      # duplicate in the list
+        # the measurement's metadata as they are before anything is exported
+        cfg0 = {sec: dict(ds.config[sec]) for sec in
+                ("experiment", "setup", "imaging", "user")
+                if sec in ds.config}
         ds.export.hdf5(op, features=req, filtered=filtered, logs=True,
                        tables=True, basins=False, override=True)
+        # a second, unfiltered export from the same dataset instance carries
+        # the measurement's own metadata (incl. its run identifier)
+        op2 = op.with_name(op.stem + "_second.rtdc")
+        ds.export.hdf5(op2, features=[feats[0]], filtered=False,
+                       basins=False, override=True)
+        with dclab.new_dataset(op2) as ex2:
+            for sec, kv in cfg0.items():
+                for k, v in kv.items():
+                    if (sec, k) in (("experiment", "event count"),
+                                    ("setup", "software version")):
+                        continue
+                    if ex2.config.get(sec, {}).get(k) != v:
+                        out.append(("metadata of a later export from the "
+                                    "same dataset differ from the "
+                                    "measurement's", "%s:%s %r vs %r" % (
+                                        sec, k, ex2.config.get(sec, {}).get(
+                                            k), v)))
+        op2.unlink()
         # --- read back
         with h5py.File(op, "r") as h5:
             have = sorted(h5.get("events", {}).keys())
@@ -169,7 +191,7 @@ def _replay(job):
                                     "%s: got %s want %s" % (f, got, want)))
                 # metadata carried over
                 for sec in ("experiment", "setup", "imaging", "user"):
-                    for k, v in ds.config.get(sec, {}).items():
+                    for k, v in cfg0.get(sec, {}).items():
                         if (sec, k) in (("experiment", "event count"),
                                         ("setup", "software version")):
                             continue
